@@ -2,3 +2,4 @@ import AuthProofs.StrLemmas
 import AuthProofs.Splitter
 import AuthProofs.Trigger
 import AuthProofs.CodeEquiv
+import AuthProofs.CodeEquivOidc
